@@ -83,7 +83,11 @@ func (hs *SimpleHotStuff) CommitRule(block *hotstuff.Block) *hotstuff.Block {
 	// we commit the great-grandparent of the block if its grandchild is certified,
 	// which we already know is true because the new block contains the grandchild's certificate,
 	// and if the great-grandparent's view + 2 equals the grandchild's view.
-	if ok && ggp.View()+2 == p.View() {
+	// The three blocks must also be linked directly by their parent hashes: a certificate
+	// may reference a block that is not the parent.
+	if ok && ggp.View()+2 == p.View() &&
+		p.Parent() == gp.Hash() && p.View() == gp.View()+1 &&
+		gp.Parent() == ggp.Hash() {
 		return ggp
 	}
 	return nil
